@@ -97,6 +97,7 @@ type c03V struct {
 	Lit    *ast.FuncLit // KFunc
 	Env    *c03Frame    // KFunc: the frame the literal was evaluated in
 	Site   ast.Node
+	Born   int // number of events on the path when the value / object was created (freshness within a loop iteration)
 }
 
 func (v *c03V) String() string {
@@ -649,7 +650,7 @@ func (x *c03Interp) fieldInit(v *c03V, f *types.Var) *c03V {
 func c03WithField(v *c03V, f *types.Var, val *c03V, t types.Type) *c03V {
 	n := &c03V{K: c03KStruct, T: t, Fields: map[*types.Var]*c03V{}}
 	if v != nil && v.K == c03KStruct {
-		n.T, n.Base = v.T, v.Base
+		n.T, n.Base, n.Born, n.Site = v.T, v.Base, v.Born, v.Site
 		for k, fv := range v.Fields {
 			n.Fields[k] = fv
 		}
